@@ -4,12 +4,8 @@ import CV.Proofs.RangeDecTotal
 
 `Fits c e k`: the 64-bit `usize` counters have room for `k` more symbols (see C02_range).
 
-**Not covered:** `RangeEncoder::clear` is not an operation of these histories.  It resets
-`bulk` and `state` but leaves a stale `situation` behind, so after `clear` on an encoder that
-was holding words back the invariant `Inv` does not hold (observed:
-`range 8 10 | raw - e500 6400 2 7e | clear | … | enc 8 8 0 80 | export` exports `7e,ff,0`;
-recorded in DESIGN as outside the given properties).  The model transcribes `clear` as it is
-and the correspondence runs include it.
+`clear()` puts the encoder into the state of `new()` (`C02_range_clear_eq_new`), which satisfies
+`Inv`, so histories may contain it at any point (also while words are held back).
 -/
 namespace CV.Range
 
